@@ -350,6 +350,43 @@ pub fn run(ctx: &Ctx, rep: &mut Report) {
         };
         judge(rep, &b.line(), op, "*");
     }
+    // (iii-b) the terminating '*' missing or misplaced, with digits chosen so that a parser
+    // that looks for *some* '*' and reads hex right after the fill field would be satisfied
+    for _ in 0..ctx.budget(3_000, 60_000) {
+        let mut b = random_build(&mut r, 40);
+        b.n = "1".into();
+        b.k = "1".into();
+        b.tag = None;
+        b.fill = r.below(6).to_string();
+        let body = b.body();
+        // find hex digits h (first one a letter, so the fill number ends before it) with
+        // xor(body + h) == value(h): "<body>HH*" then looks like a body with checksum HH
+        for v in 0..=255u32 {
+            let h = format!("{:02X}", v);
+            if !h.as_bytes()[0].is_ascii_alphabetic() {
+                continue;
+            }
+            let mut cand = body.clone();
+            cand.extend_from_slice(h.as_bytes());
+            if nmea_ref::xor(&cand) as u32 == v {
+                let mut l = vec![b.delim];
+                l.extend_from_slice(&cand);
+                l.push(b'*');
+                judge(rep, &l, "star-after-checksum", "star");
+                l.extend_from_slice(h.as_bytes());
+                judge(rep, &l, "star-after-checksum-repeated", "star");
+                break;
+            }
+        }
+        // '*' replaced by another separator
+        for sep in [b',', b' ', b'#', b'\\'] {
+            let mut l = b.line();
+            if let Some(p) = l.iter().rposition(|c| *c == b'*') {
+                l[p] = sep;
+                judge(rep, &l, "star-replaced", "star");
+            }
+        }
+    }
     // (iv) random bytes
     for _ in 0..ctx.budget(100_000, 1_000_000) {
         let n = r.usize(0, 120);
